@@ -158,6 +158,15 @@ pub struct TryHandler {
     pub iterator_reg: Option<Register>,
 }
 
+/// The four relational operators
+#[derive(Debug, Clone, Copy, PartialEq, Eq)]
+pub enum RelOp {
+    Lt,
+    LtEq,
+    Gt,
+    GtEq,
+}
+
 /// Pending completion to be executed after finally block
 pub enum PendingCompletion {
     /// Return this value after finally completes
@@ -2301,7 +2310,15 @@ impl BytecodeVM {
             Op::Exp { dst, left, right } => {
                 let left_val = interp.coerce_to_number(self.get_reg(left))?;
                 let right_val = interp.coerce_to_number(self.get_reg(right))?;
-                self.set_reg(dst, JsValue::Number(math::powf(left_val, right_val)));
+                // ECMAScript: a NaN exponent gives NaN, and (+-1) ** (+-Infinity) is NaN
+                let result = if right_val.is_nan()
+                    || (right_val.is_infinite() && (left_val == 1.0 || left_val == -1.0))
+                {
+                    f64::NAN
+                } else {
+                    math::powf(left_val, right_val)
+                };
+                self.set_reg(dst, JsValue::Number(result));
                 Ok(OpResult::Continue)
             }
 
@@ -2341,30 +2358,34 @@ impl BytecodeVM {
             }
 
             Op::Lt { dst, left, right } => {
-                let left_val = self.get_reg(left).to_number();
-                let right_val = self.get_reg(right).to_number();
-                self.set_reg(dst, JsValue::Boolean(left_val < right_val));
+                let l = self.get_reg(left).clone();
+                let r = self.get_reg(right).clone();
+                let result = interp.relational_compare(&l, &r, RelOp::Lt)?;
+                self.set_reg(dst, JsValue::Boolean(result));
                 Ok(OpResult::Continue)
             }
 
             Op::LtEq { dst, left, right } => {
-                let left_val = self.get_reg(left).to_number();
-                let right_val = self.get_reg(right).to_number();
-                self.set_reg(dst, JsValue::Boolean(left_val <= right_val));
+                let l = self.get_reg(left).clone();
+                let r = self.get_reg(right).clone();
+                let result = interp.relational_compare(&l, &r, RelOp::LtEq)?;
+                self.set_reg(dst, JsValue::Boolean(result));
                 Ok(OpResult::Continue)
             }
 
             Op::Gt { dst, left, right } => {
-                let left_val = self.get_reg(left).to_number();
-                let right_val = self.get_reg(right).to_number();
-                self.set_reg(dst, JsValue::Boolean(left_val > right_val));
+                let l = self.get_reg(left).clone();
+                let r = self.get_reg(right).clone();
+                let result = interp.relational_compare(&l, &r, RelOp::Gt)?;
+                self.set_reg(dst, JsValue::Boolean(result));
                 Ok(OpResult::Continue)
             }
 
             Op::GtEq { dst, left, right } => {
-                let left_val = self.get_reg(left).to_number();
-                let right_val = self.get_reg(right).to_number();
-                self.set_reg(dst, JsValue::Boolean(left_val >= right_val));
+                let l = self.get_reg(left).clone();
+                let r = self.get_reg(right).clone();
+                let result = interp.relational_compare(&l, &r, RelOp::GtEq)?;
+                self.set_reg(dst, JsValue::Boolean(result));
                 Ok(OpResult::Continue)
             }
 
@@ -2372,43 +2393,43 @@ impl BytecodeVM {
             // Bitwise Operations
             // ═══════════════════════════════════════════════════════════════════════════
             Op::BitAnd { dst, left, right } => {
-                let left_val = to_int32(self.get_reg(left).to_number());
-                let right_val = to_int32(self.get_reg(right).to_number());
+                let left_val = to_int32(interp.coerce_to_number(&self.get_reg(left).clone())?);
+                let right_val = to_int32(interp.coerce_to_number(&self.get_reg(right).clone())?);
                 self.set_reg(dst, JsValue::Number((left_val & right_val) as f64));
                 Ok(OpResult::Continue)
             }
 
             Op::BitOr { dst, left, right } => {
-                let left_val = to_int32(self.get_reg(left).to_number());
-                let right_val = to_int32(self.get_reg(right).to_number());
+                let left_val = to_int32(interp.coerce_to_number(&self.get_reg(left).clone())?);
+                let right_val = to_int32(interp.coerce_to_number(&self.get_reg(right).clone())?);
                 self.set_reg(dst, JsValue::Number((left_val | right_val) as f64));
                 Ok(OpResult::Continue)
             }
 
             Op::BitXor { dst, left, right } => {
-                let left_val = to_int32(self.get_reg(left).to_number());
-                let right_val = to_int32(self.get_reg(right).to_number());
+                let left_val = to_int32(interp.coerce_to_number(&self.get_reg(left).clone())?);
+                let right_val = to_int32(interp.coerce_to_number(&self.get_reg(right).clone())?);
                 self.set_reg(dst, JsValue::Number((left_val ^ right_val) as f64));
                 Ok(OpResult::Continue)
             }
 
             Op::LShift { dst, left, right } => {
-                let left_val = to_int32(self.get_reg(left).to_number());
-                let right_val = to_uint32(self.get_reg(right).to_number()) & 0x1F;
+                let left_val = to_int32(interp.coerce_to_number(&self.get_reg(left).clone())?);
+                let right_val = to_uint32(interp.coerce_to_number(&self.get_reg(right).clone())?) & 0x1F;
                 self.set_reg(dst, JsValue::Number((left_val << right_val) as f64));
                 Ok(OpResult::Continue)
             }
 
             Op::RShift { dst, left, right } => {
-                let left_val = to_int32(self.get_reg(left).to_number());
-                let right_val = to_uint32(self.get_reg(right).to_number()) & 0x1F;
+                let left_val = to_int32(interp.coerce_to_number(&self.get_reg(left).clone())?);
+                let right_val = to_uint32(interp.coerce_to_number(&self.get_reg(right).clone())?) & 0x1F;
                 self.set_reg(dst, JsValue::Number((left_val >> right_val) as f64));
                 Ok(OpResult::Continue)
             }
 
             Op::URShift { dst, left, right } => {
-                let left_val = to_uint32(self.get_reg(left).to_number());
-                let right_val = to_uint32(self.get_reg(right).to_number()) & 0x1F;
+                let left_val = to_uint32(interp.coerce_to_number(&self.get_reg(left).clone())?);
+                let right_val = to_uint32(interp.coerce_to_number(&self.get_reg(right).clone())?) & 0x1F;
                 self.set_reg(dst, JsValue::Number((left_val >> right_val) as f64));
                 Ok(OpResult::Continue)
             }
@@ -2436,7 +2457,26 @@ impl BytecodeVM {
                         &prop_key,
                     )?
                 } else {
-                    obj_ref.borrow().has_own_property(&prop_key)
+                    // `in` looks along the prototype chain
+                    let mut found = false;
+                    let mut cursor = Some(obj_ref.cheap_clone());
+                    while let Some(o) = cursor {
+                        let b = o.borrow();
+                        if b.has_own_property(&prop_key) {
+                            found = true;
+                            break;
+                        }
+                        if let Some(elements) = b.array_elements() {
+                            let is_element = matches!(&prop_key, PropertyKey::Index(i) if (*i as usize) < elements.len());
+                            let is_length = matches!(&prop_key, PropertyKey::String(s) if s.as_str() == "length");
+                            if is_element || is_length {
+                                found = true;
+                                break;
+                            }
+                        }
+                        cursor = b.prototype.clone();
+                    }
+                    found
                 };
 
                 self.set_reg(dst, JsValue::Boolean(has_prop));
@@ -2541,7 +2581,7 @@ impl BytecodeVM {
             }
 
             Op::BitNot { dst, src } => {
-                let val = to_int32(self.get_reg(src).to_number());
+                let val = to_int32(interp.coerce_to_number(&self.get_reg(src).clone())?);
                 self.set_reg(dst, JsValue::Number((!val) as f64));
                 Ok(OpResult::Continue)
             }
